@@ -121,12 +121,6 @@ theorem unknown_if_keyword (name : String) (hn : IsMemberName name) (t : FieldTy
   have h2 : lit "if" ('x' :: rest) = none := lit_none_of_head "if" 'i' _ rfl 'x' rest (by decide) (by decide)
   simp only [optConditionalEol, h1, conditionalExpression, lit_skip_blank, h2, bind, Option.bind, Bool.false_eq_true, if_false]
 
-/-- the value of a condition as it is printed -/
-def condValueText : Scalar → Chars
-  | .int n => (toString n.toNat).toList
-  | .str c => c.toList
-  | _ => []
-
 /-- Operator `unknown-cond-op`: `name = T if VALUE xOP …` (the operator words `equals`, `in`, `not` prefixed). -/
 theorem unknown_condition_operator (name : String) (hn : IsMemberName name) (t : FieldType) (ht : WFType t)
     (valueText : Chars) (v : Scalar) (hv : ∀ r, conditionValue (' ' :: (valueText ++ ' ' :: r)) = some (v, ' ' :: r))
@@ -238,5 +232,112 @@ theorem missing_close_bracket_array (name : String) (hn : IsMemberName name) (a 
       have s3 : (fillPlaceholder : String) = "__FILL__" := rfl
       simp only [arrayArguments, lit_lpar, s1, bind, Option.bind, lit_comma, scanSize, propertyName_skip_blank, s2,
         number_skip_blank, number_underscore_none, s3, lit_skip_blank, lit_fill, Option.map, hrp]
+
+/-! ### attribute lines -/
+
+/-- an attribute line `@text` is rejected everywhere as soon as no attribute scanner accepts `text` -/
+theorem attribute_line_rejected (text : Chars) (h1 : structAttribute text = none) (h2 : enumAttribute text = none)
+    (h3 : fieldAttribute text = none) : LineRejected ('@' :: text) := by
+  have hat : isWs '@' = false := by decide
+  have hlit : lit "@" ('@' :: text) = some text := lit_at text
+  refine ⟨fun m => ?_, ?_, fun afterAttrs => ?_⟩
+  · have e1 : structModifier ('@' :: text) = none := structModifier_none_of_head _ _ hat (by decide) (by decide)
+    have e2 : lit "import" ('@' :: text) = none := lit_none_of_head "import" 'i' _ rfl _ _ hat (by decide)
+    have e3 : lit "struct" ('@' :: text) = none := lit_none_of_head "struct" 's' _ rfl _ _ hat (by decide)
+    have e4 : lit "using" ('@' :: text) = none := lit_none_of_head "using" 'u' _ rfl _ _ hat (by decide)
+    have e5 : lit "enum" ('@' :: text) = none := lit_none_of_head "enum" 'e' _ rfl _ _ hat (by decide)
+    cases m <;> simp only [parseTopLine, e1, e2, e3, e4, e5, hlit, h1, h2, bind, Option.bind, Option.map]
+  · have e1 : constName ('@' :: text) = none := constName_none_of_head _ _ hat (by decide)
+    simp only [parseEnumLine, e1, bind, Option.bind]
+  · have e1 : constName ('@' :: text) = none := constName_none_of_head _ _ hat (by decide)
+    have e2 : propertyName ('@' :: text) = none := propertyName_none_of_head _ _ hat (by decide)
+    have e3 : lit "__value__" ('@' :: text) = none := lit_none_of_head "__value__" '_' _ rfl _ _ hat (by decide)
+    cases afterAttrs <;>
+      simp only [parseStructLine, e1, e2, e3, hlit, h3, bind, Option.bind, Option.map, Bool.false_eq_true, ↓reduceIte]
+
+theorem follows_bang_prop (r : Chars) : Follows isPropChar ('!' :: r) := follows_cons _ _ _ (by decide)
+theorem follows_comma_prop (r : Chars) : Follows isPropChar (',' :: r) := follows_cons _ _ _ (by decide)
+
+/-- Operator `unknown-transform`: `@comparer(member!xtransform…` -/
+theorem unknown_transform (p : String) (hp : IsPropName p) (rest : Chars) :
+    LineRejected ('@' :: 'c' :: 'o' :: 'm' :: 'p' :: 'a' :: 'r' :: 'e' :: 'r' :: '(' :: (p.toList ++ '!' :: 'x' :: rest)) := by
+  have hc : skipWs ('c' :: 'o' :: 'm' :: 'p' :: 'a' :: 'r' :: 'e' :: 'r' :: '(' :: (p.toList ++ '!' :: 'x' :: rest)) =
+      'c' :: 'o' :: 'm' :: 'p' :: 'a' :: 'r' :: 'e' :: 'r' :: '(' :: (p.toList ++ '!' :: 'x' :: rest) :=
+    skipWs_cons_of_not_ws _ _ (by decide)
+  have hh : ∀ (s : String) (s0 : Char) (sr : Chars), s.toList = s0 :: sr → (s0 == 'c') = false → ∀ r,
+      litHere s ('c' :: r) = none := fun s s0 sr hs hne r => litHere_none_of_head s s0 sr hs 'c' r hne
+  have hcomp : ∀ r, litHere "comparer" ('c' :: 'o' :: 'm' :: 'p' :: 'a' :: 'r' :: 'e' :: 'r' :: r) = some r := by
+    intro r; simp [litHere, List.isPrefixOf]
+  have hprop := propertyName_append p.toList ('!' :: 'x' :: rest) hp (follows_bang_prop _)
+  have hx : lit "ripemd_keccak_256" ('x' :: rest) = none :=
+    lit_none_of_head "ripemd_keccak_256" 'r' _ rfl 'x' rest (by decide) (by decide)
+  apply attribute_line_rejected
+  · simp only [structAttribute, hc, hh "is_size_implicit" 'i' _ rfl (by decide), hh "is_aligned" 'i' _ rfl (by decide),
+      hh "discriminator" 'd' _ rfl (by decide), hh "initializes" 'i' _ rfl (by decide), hcomp, lit_lpar, comparerEntry, hprop,
+      lit_bang, hx, bind, Option.bind]
+  · have : lit "is_bitwise" ('c' :: 'o' :: 'm' :: 'p' :: 'a' :: 'r' :: 'e' :: 'r' :: '(' :: (p.toList ++ '!' :: 'x' :: rest)) = none :=
+      lit_none_of_head "is_bitwise" 'i' _ rfl 'c' _ (by decide) (by decide)
+    simp only [enumAttribute, this, bind, Option.bind]
+  · simp only [fieldAttribute, hc, hh "is_byte_constrained" 'i' _ rfl (by decide), hh "alignment" 'a' _ rfl (by decide),
+      hh "sort_key" 's' _ rfl (by decide), hh "sizeref" 's' _ rfl (by decide)]
+
+/-- Operator `wrong-arity` on the flag attributes: a flag with an argument list. -/
+theorem wrong_arity_flags :
+    LineRejected "@is_aligned(ab)".toList ∧ LineRejected "@is_size_implicit(ab)".toList ∧
+    LineRejected "@is_bitwise(ab)".toList ∧ LineRejected "@is_byte_constrained(ab)".toList := by
+  refine ⟨⟨fun m => ?_, ?_, fun b => ?_⟩, ⟨fun m => ?_, ?_, fun b => ?_⟩, ⟨fun m => ?_, ?_, fun b => ?_⟩,
+    ⟨fun m => ?_, ?_, fun b => ?_⟩⟩ <;> first | (cases m <;> decide) | (cases b <;> decide) | decide
+
+/-- Operator `wrong-arity` on the variadic attributes: an empty argument list. -/
+theorem wrong_arity_empty : LineRejected "@discriminator()".toList ∧ LineRejected "@comparer()".toList := by
+  refine ⟨⟨fun m => ?_, ?_, fun b => ?_⟩, ⟨fun m => ?_, ?_, fun b => ?_⟩⟩ <;>
+    first | (cases m <;> decide) | (cases b <;> decide) | decide
+
+/-- Operator `wrong-arity` on `@size(member)`: a second argument. -/
+theorem wrong_arity_size (p : String) (hp : IsPropName p) (rest : Chars) :
+    LineRejected ('@' :: 's' :: 'i' :: 'z' :: 'e' :: '(' :: (p.toList ++ ',' :: rest)) := by
+  have hc : skipWs ('s' :: 'i' :: 'z' :: 'e' :: '(' :: (p.toList ++ ',' :: rest)) =
+      's' :: 'i' :: 'z' :: 'e' :: '(' :: (p.toList ++ ',' :: rest) := skipWs_cons_of_not_ws _ _ (by decide)
+  have hh : ∀ (s : String) (s0 : Char) (sr : Chars), s.toList = s0 :: sr → (s0 == 's') = false → ∀ r,
+      litHere s ('s' :: r) = none := fun s s0 sr hs hne r => litHere_none_of_head s s0 sr hs 's' r hne
+  have hsize : ∀ r, litHere "size" ('s' :: 'i' :: 'z' :: 'e' :: r) = some r := by
+    intro r; simp [litHere, List.isPrefixOf]
+  have hsort : ∀ r, litHere "sort_key" ('s' :: 'i' :: r) = none := by intro r; simp [litHere, List.isPrefixOf]
+  have hsizeref : ∀ r, litHere "sizeref" ('s' :: 'i' :: 'z' :: 'e' :: '(' :: r) = none := by
+    intro r; simp [litHere, List.isPrefixOf]
+  have hprop := propertyName_append p.toList (',' :: rest) hp (follows_comma_prop _)
+  have hrp : lit ")" (',' :: rest) = none := lit_none_of_head ")" ')' [] rfl ',' rest (by decide) (by decide)
+  apply attribute_line_rejected
+  · simp only [structAttribute, hc, hh "is_size_implicit" 'i' _ rfl (by decide), hh "is_aligned" 'i' _ rfl (by decide),
+      hh "discriminator" 'd' _ rfl (by decide), hh "initializes" 'i' _ rfl (by decide), hh "comparer" 'c' _ rfl (by decide),
+      hsize, lit_lpar, hprop, hrp, bind, Option.bind]
+  · have : lit "is_bitwise" ('s' :: 'i' :: 'z' :: 'e' :: '(' :: (p.toList ++ ',' :: rest)) = none :=
+      lit_none_of_head "is_bitwise" 'i' _ rfl 's' _ (by decide) (by decide)
+    simp only [enumAttribute, this, bind, Option.bind]
+  · simp only [fieldAttribute, hc, hh "is_byte_constrained" 'i' _ rfl (by decide), hh "alignment" 'a' _ rfl (by decide),
+      hsort, hsizeref]
+
+/-- Operator `unknown-keyword` on `make_const`: `NAME = xmake_const(…)`. -/
+theorem unknown_const_keyword (name : String) (hn : IsConstantName name) (rest : Chars) :
+    LineRejected (name.toList ++ ' ' :: '=' :: ' ' :: 'x' :: rest) := by
+  obtain ⟨a, b, rs, heq, hup, hb, hrs⟩ := id hn
+  have hc := constName_append name.toList (' ' :: '=' :: ' ' :: 'x' :: rest) hn (follows_blank_const _)
+  have hnum : number ('x' :: rest) = none := by simp [number, hexNumber, decNumber, skipWs, isWs, isDigit]
+  have hmk : lit "make_const" ('x' :: rest) = none := lit_none_of_head "make_const" 'm' _ rfl 'x' rest (by decide) (by decide)
+  refine ⟨fun m => ?_, ?_, fun afterAttrs => ?_⟩
+  · rw [heq]
+    exact parseTopLine_none_of_head m a _ (not_ws_of_upper hup) (beq_false_of_upper _ (by decide) a hup)
+      (beq_false_of_upper _ (by decide) a hup) (beq_false_of_upper _ (by decide) a hup) (beq_false_of_upper _ (by decide) a hup)
+      (beq_false_of_upper _ (by decide) a hup) (beq_false_of_upper _ (by decide) a hup)
+  · simp only [parseEnumLine, hc, bind, Option.bind, lit_skip_blank, lit_eq, number_skip_blank, hnum]
+  · cases afterAttrs
+    · simp only [parseStructLine, Bool.false_eq_true, if_false, hc, constMemberRest, lit_skip_blank, lit_eq, hmk, bind,
+        Option.bind]
+    · have e1 : propertyName (name.toList ++ ' ' :: '=' :: ' ' :: 'x' :: rest) = none := propertyName_none_of_const _ _ hn
+      have e2 : lit "__value__" (name.toList ++ ' ' :: '=' :: ' ' :: 'x' :: rest) = none := by
+        rw [heq]; exact lit_none_of_upper "__value__" '_' _ rfl (by decide) a _ hup
+      have e3 : lit "@" (name.toList ++ ' ' :: '=' :: ' ' :: 'x' :: rest) = none := by
+        rw [heq]; exact lit_none_of_upper "@" '@' _ rfl (by decide) a _ hup
+      simp only [parseStructLine, if_true, e1, e2, e3, bind, Option.bind]
 
 end SymbolVerif.Cats.Parser
